@@ -70,10 +70,11 @@ class _Chk(object):
     def __init__(self, fam, name, case, acc):
         self.fam, self.name, self.case, self.acc = fam, name, case, acc
         self.failed = False
+        self.size = sum(x if isinstance(x, int) else len(str(x)) for x in case["spec"])
 
     def viol(self, tag, text):
         self.failed = True
-        self.acc.violation("C18/%s/%s" % (self.fam, tag), "%s: %s" % (self.name, text), self.case, size=len(repr(self.case)))
+        self.acc.violation("C18/%s/%s" % (self.fam, tag), "%s: %s" % (self.name, text), self.case, size=self.size)
 
     def calls(self, calls, want_rf=None):
         """every recorded Integer.random / random_range call must be in bounds and equal the reference"""
